@@ -423,9 +423,10 @@ func run(tapeJSON json.RawMessage, res *core.Result) {
 	// expectation
 	exp := "none"
 	var pnames, rejNames []string
-	dropped := false
+	dropped, sealedSname := false, false
 	for _, p := range tp.Perturb {
 		dropped = dropped || p.Kind == "caddr-dropped"
+		sealedSname = sealedSname || p.Kind == "sealed-sname"
 	}
 	for _, p := range tp.Perturb {
 		pnames = append(pnames, fmt.Sprintf("%s(%d)", p.Kind, p.Arg))
@@ -435,6 +436,12 @@ func run(tapeJSON json.RawMessage, res *core.Result) {
 		e := expect(tp.Exchange, tp.Etype, p, addrsRequested)
 		if p.Kind == "caddr-added" && dropped {
 			e = "either" // two changes to one field: the list that was extended is dropped again
+		}
+		if p.Kind == "ticket-sname" && sealedSname {
+			// the server name travels twice (sealed reply part, clear-text ticket) and both perturbations
+			// write the same forged name: the ticket's name agrees with the sealed one again, and what
+			// remains is the sealed name alone
+			e = expect(tp.Exchange, tp.Etype, refkdc.Perturb{Kind: "sealed-sname"}, addrsRequested)
 		}
 		switch e {
 		case "reject":
